@@ -13,8 +13,8 @@ esac
 HASH=$( (cd "$REPO" && find src include external -type f \( -name '*.cpp' -o -name '*.hpp' -o -name '*.h' \) -print0 | sort -z | xargs -0 sha1sum; echo "$FLAVOR $CXXFLAGS GDSTK_VERIF") | sha1sum | cut -c1-16)
 OUT="$VERIF/build/lib-$FLAVOR-$HASH"
 if [ -f "$OUT/libgdstk.a" ]; then echo "$OUT"; exit 0; fi
-# prune old caches of this flavor (keep 12 most recent)
-ls -dt "$VERIF"/build/lib-$FLAVOR-* 2>/dev/null | tail -n +13 | xargs -r rm -rf
+# prune old caches of this flavor (keep the 40 most recent and anything younger than 2 h)
+ls -dt "$VERIF"/build/lib-$FLAVOR-* 2>/dev/null | tail -n +41 | while read d; do [ -n "$(find "$d" -maxdepth 0 -mmin +120)" ] && rm -rf "$d"; done
 TMP="$OUT.tmp.$$"
 rm -rf "$TMP"; mkdir -p "$TMP"
 SRCS=$(ls "$REPO"/src/*.cpp "$REPO"/external/clipper/clipper.cpp)
